@@ -430,9 +430,41 @@ Proof.
     + apply IH; [assumption|]. intros H. apply Hx. right. exact H.
 Qed.
 
+Lemma set_index_in nm idx vs x :
+  In x (map snd (map (set_index nm idx) vs)) -> In x (map snd vs) \/ x = idx.
+Proof.
+  induction vs as [|a tl IH]; cbn [map]; intros H; [contradiction|].
+  destruct H as [H|H].
+  - unfold set_index in H. destruct (fst a =? nm); cbn in H; [right; lia | left; left; exact H].
+  - destruct (IH H) as [H'|H']; [left; right; exact H' | right; exact H'].
+Qed.
+
+Lemma set_index_other nm idx vs : ~ In nm (map fst vs) -> map (set_index nm idx) vs = vs.
+Proof.
+  induction vs as [|a tl IH]; cbn [map]; intros H; [reflexivity|].
+  unfold set_index at 1. destruct (Z.eqb_spec (fst a) nm) as [E|NE].
+  - exfalso. apply H. left. exact E.
+  - rewrite IH; [reflexivity|]. intros Hin. apply H. right. exact Hin.
+Qed.
+
+Lemma set_index_nodup nm idx vs :
+  NoDup (map fst vs) -> NoDup (map snd vs) -> ~ In idx (map snd vs) ->
+  NoDup (map snd (map (set_index nm idx) vs)).
+Proof.
+  induction vs as [|a tl IH]; cbn [map]; intros Hn Hi Hx; [constructor|].
+  inversion Hn as [|? ? Hn1 Hn2]; subst. inversion Hi as [|? ? Hi1 Hi2]; subst.
+  unfold set_index at 1. destruct (Z.eqb_spec (fst a) nm) as [E|NE].
+  - cbn [snd]. rewrite set_index_other by (rewrite <- E; exact Hn1).
+    constructor; [|exact Hi2]. intros Hin. apply Hx. right. exact Hin.
+  - constructor.
+    + intros Hin. destruct (set_index_in _ _ _ _ Hin) as [H|H]; [contradiction|].
+      apply Hx. left. exact H.
+    + apply IH; [exact Hn2 | exact Hi2 |]. intros Hin. apply Hx. right. exact Hin.
+Qed.
+
 Lemma enum_inv_step e o : enum_inv e -> enum_inv (enum_step e o).
 Proof.
-  intros [Hn [Hi Hm]]. destruct o as [nm idx | nm | m]; cbn [enum_step].
+  intros [Hn [Hi Hm]]. destruct o as [nm idx | nm | m | nm idx | ]; cbn [enum_step].
   - unfold enum_add. destruct (has_index (e_values e) idx || has_name (e_values e) nm) eqn:C.
     + split; [|split]; assumption.
     + apply orb_false_elim in C. destruct C as [C1 C2].
@@ -488,6 +520,23 @@ Proof.
     + intros i Hin. apply M3. apply in_map_iff in Hin. destruct Hin as [p [E Hp]].
       apply in_map_iff. exists p. split; [exact E | apply Sub; exact Hp].
   - split; [|split]; assumption.
+  - (* UpdateIndex *)
+    unfold enum_update.
+    destruct (find (fun p => fst p =? nm) (e_values e)) as [[nm' old]|] eqn:F.
+    2:{ split; [|split]; assumption. }
+    destruct (old =? idx); [split; [|split]; assumption|].
+    destruct (has_index (e_values e) idx) eqn:C; [split; [|split]; assumption|].
+    apply has_index_false in C.
+    unfold enum_inv, names, indexes. cbn [e_values e_max e_min].
+    split; [|split].
+    + rewrite map_map. erewrite map_ext; [exact Hn|].
+      intros p. unfold set_index. destruct (Z.eqb_spec (fst p) nm) as [E|NE]; [cbn; lia | reflexivity].
+    + apply set_index_nodup; assumption.
+    + apply max_of_is_max.
+  - (* RemoveAllValues *)
+    unfold enum_inv, names, indexes, enum_clear. cbn [e_values e_max map].
+    split; [constructor|]. split; [constructor|].
+    split; [lia|]. split; [left; reflexivity | intros i []].
 Qed.
 
 Theorem enum_inv_reachable ops : enum_inv (enum_run ops).
@@ -538,12 +587,18 @@ Proof.
   unfold enum_run. assert (H0 : Forall (fun p : Z * Z => snd p < two63) (e_values enum_new)) by constructor.
   revert H0. generalize enum_new. induction ops as [|o tl IH]; intros e He Hops; cbn [fold_left]; [exact He|].
   inversion Hops; subst. apply IH; [|assumption].
-  destruct o as [nm idx | nm | m]; cbn [enum_step].
+  destruct o as [nm idx | nm | m | nm idx | ]; cbn [enum_step].
   - unfold enum_add. destruct (has_index (e_values e) idx || has_name (e_values e) nm); [exact He|].
     cbn [e_values]. apply Forall_app. split; [exact He|]. constructor; [|constructor]. cbn in *. lia.
   - unfold enum_remove. destruct (find _ _) as [[? ?]|]; [|exact He]. cbn [e_values].
     apply Forall_forall. intros p Hp. apply filter_In in Hp. rewrite Forall_forall in He. apply He. tauto.
   - exact He.
+  - unfold enum_update. destruct (find _ _) as [[? old]|]; [|exact He].
+    destruct (old =? idx); [exact He|]. destruct (has_index (e_values e) idx); [exact He|].
+    cbn [e_values]. apply Forall_forall. intros p Hp. apply in_map_iff in Hp. destruct Hp as [q [E Hq]].
+    rewrite Forall_forall in He. specialize (He q Hq). unfold set_index in E.
+    destruct (fst q =? nm); subst p; [cbn in *; lia | exact He].
+  - constructor.
 Qed.
 
 (* GetSize after any history of AddValue / RemoveValue / SetMinSize *)
